@@ -47,22 +47,44 @@ def _exc(e, phase):
     return {"phase": phase, "exc": type(e).__name__, "sigma": isinstance(e, SigmaError)}
 
 
-def load(path, dicts, tmp, resolve=True):
+def as_kind(items, kind):
+    """hand the same items over as another kind of iterable (the API takes Iterable / list arguments)"""
+    items = list(items)
+    if kind == "tuple":
+        return tuple(items)
+    if kind == "gen":
+        return (x for x in items)
+    if kind == "map":
+        return map(lambda x: x, items)
+    if kind == "iter":
+        return iter(items)
+    if kind == "dictvalues":
+        return {k: x for k, x in enumerate(items)}.values()
+    return items
+
+
+def load(path, dicts, tmp, resolve=True, kind="list"):
     """the collection, loaded through one of the load paths; resolve=False defers the resolution of
-    references (resolve_references=False on every loader involved) to Backend.convert"""
+    references (resolve_references=False on every loader involved) to Backend.convert; kind = the kind of
+    iterable handed to merge (collections), load_ruleset (paths) and from_dicts (sized kinds only)"""
     n = len(dicts)
     if path == "from_dicts":
-        return SigmaCollection.from_dicts(copy.deepcopy(dicts), resolve_references=resolve)
+        k = kind if kind in ("list", "tuple", "dictvalues") else "tuple"     # from_dicts needs len()
+        return SigmaCollection.from_dicts(as_kind(copy.deepcopy(dicts), k), resolve_references=resolve)
     if path == "from_yaml":
         return SigmaCollection.from_yaml(yaml.safe_dump_all(dicts, sort_keys=False), resolve_references=resolve)
     if path == "merge":
-        cols = [SigmaCollection.from_dicts([copy.deepcopy(x)], resolve_references=False, collect_filters=True) for x in dicts]
+        if kind == "gen":    # collections created while merge iterates
+            cols = (SigmaCollection.from_dicts([copy.deepcopy(x)], resolve_references=False, collect_filters=True) for x in dicts)
+        else:
+            cols = as_kind([SigmaCollection.from_dicts([copy.deepcopy(x)], resolve_references=False, collect_filters=True)
+                            for x in dicts], kind)
         return SigmaCollection.merge(cols, resolve_references=resolve)
     if path == "merge2":   # two unresolved multi-document collections
         h = n // 2
         cols = [SigmaCollection.from_yaml(yaml.safe_dump_all(part, sort_keys=False), resolve_references=False, collect_filters=True)
                 for part in (dicts[:h], dicts[h:]) if part]
-        return SigmaCollection.merge(cols, resolve_references=resolve)
+        return SigmaCollection.merge(as_kind(cols, kind), resolve_references=resolve)
     if path in ("ruleset", "ruleset2"):
         files = []
         if path == "ruleset":
@@ -73,7 +95,7 @@ def load(path, dicts, tmp, resolve=True):
             p = Path(tmp) / f"r{k:03d}.yml"
             p.write_text(yaml.safe_dump_all(part, sort_keys=False), encoding="utf-8")
             files.append(p)
-        return SigmaCollection.load_ruleset(files, resolve_references=resolve)
+        return SigmaCollection.load_ruleset(as_kind(files, kind), resolve_references=resolve)
     raise ValueError(path)
 
 
@@ -105,14 +127,15 @@ def convert_once(col, resolved):
 
 
 def run_one(path, dicts, tmp, mode):
-    """mode: {"resolve": references resolved while loading?, "conv": direct | explicit | twice | appendf}
+    """mode: {"resolve": references resolved while loading?, "conv": direct | explicit | twice | appendf,
+              "it": kind of iterable handed to merge / load_ruleset / from_dicts (see as_kind)}
     returns a list of results (two for conv == "twice": the same collection object converted twice).
     order_load = order of collection.rules after the FIRST resolution of the references (while loading, by
     the explicit call, or by the first Backend.convert when everything was deferred)."""
     resolve, conv = mode.get("resolve", True), mode.get("conv", "direct")
     first = None
     try:
-        col = load(path, dicts, tmp, resolve)
+        col = load(path, dicts, tmp, resolve, mode.get("it", "list"))
         if resolve:
             first = titles(col)
         if conv == "explicit":
